@@ -102,6 +102,8 @@ HostileVerdict(r) ==
               \/ (r.len <= 300 /\ ~HasCommand(r.stream) /\ r.control[4].reply # Encode(BulkF(<<107, 101, 101, 112>>)))
            THEN V("C10", "the control connection got wrong answers while a hostile stream was sent (" \o r.tag \o ")")
     ELSE IF ~r.fresh_ok THEN V("C10", "a new connection is no longer served after a hostile stream (" \o r.tag \o ")")
+    ELSE IF Has(r, "capacity_ok") /\ ~r.capacity_ok
+           THEN V("C10", "after a hostile stream the server no longer serves its full number of connections: the stream cost it a slot (" \o r.tag \o ")")
     ELSE IF r.len <= 300 /\ ~HasCommand(r.stream) /\
               ~StoreMatches(r.store, <<<<r.ck, r.cv>>, <<<<118, 105, 99, 116, 105, 109>>, <<107, 101, 101, 112>>>>>>)
            THEN V("C10", "stored data changed through a request that is not a well-formed command (" \o r.tag \o ")")
@@ -178,9 +180,18 @@ KvBulkVerdict(r) ==
            THEN V("C06", "pipelined GETs of a large value are not answered byte for byte under back-pressure")
     ELSE OK
 
+\* a request frame far above every buffer with more requests pipelined behind it
+KvBigVerdict(r) ==
+    IF Has(r, "abort") THEN V("C06", "the server process died or hung")
+    ELSE IF r.exact # r.requests \/ r.received # r.expected
+           THEN V("C06", "requests pipelined behind a large request are not answered one reply each, in order, byte for byte (" \o r.how \o ")")
+    ELSE IF ~r.store_ok THEN V("C06", "after a large request and the requests pipelined behind it the store does not hold what was acknowledged")
+    ELSE OK
+
 Verdict(r) ==
     CASE r.ev = "kv" -> KvVerdict(r)
       [] r.ev = "kvbulk" -> KvBulkVerdict(r)
+      [] r.ev = "kvbig" -> KvBigVerdict(r)
       [] r.ev = "hostile" -> HostileVerdict(r)
       [] r.ev = "limit" -> LimitVerdict(r)
       [] r.ev = "shutdown" -> ShutdownVerdict(r)
